@@ -23,9 +23,14 @@ _NS = 'self.tuple_of_nests'
 # ASSUMED (decided by the bounded stand-in bounded/c05_nests_native.py, mode partition): check_partition accepts only
 # pairwise disjoint nests that do not meet the alternatives left alone
 contract('biogeme.nests.NestsForNestedLogit.check_partition', P, verify=False, modifies=[], returns='tuple[bool, str]',
-         ensures={'accepted_means_disjoint': f"implies(result[0], c05c_nests_disjoint({_NS}))",
+         ensures={'accepted_means_disjoint':
+                  f"implies(result[0], forall(lambda a: forall(lambda b: implies(a != b, forall(lambda p: forall(lambda r: "
+                  f"{_NS}[a].list_of_alternatives[p] != {_NS}[b].list_of_alternatives[r], 0, len({_NS}[b].list_of_alternatives)), "
+                  f"0, len({_NS}[a].list_of_alternatives))), 0, len({_NS})), 0, len({_NS})))",
                   'accepted_means_alone_outside_nests':
-                  f"implies(result[0] and self.alone is not None, c05c_nests_outside({_NS}, typed(self.alone, 'set[int]')))"},
+                  f"implies(result[0] and self.alone is not None, forall(lambda a: forall(lambda p: "
+                  f"{_NS}[a].list_of_alternatives[p] not in typed(self.alone, 'set[int]'), 0, len({_NS}[a].list_of_alternatives)), "
+                  f"0, len({_NS})))"},
          note='assumed: NestsForNestedLogit.check_partition returns ok only when the nests are pairwise disjoint and disjoint '
               'from `alone` (set comprehensions / set().union(*generator) are outside the engine; bounded stand-in '
               'C05:bounded:nests:accepted-structures-are-partitions-and-alone-is-the-complement)')
@@ -46,11 +51,6 @@ _DOM_K = f"forall(lambda q: forall(lambda p: {T}[q].list_of_alternatives[p] in l
 _VAL_K = (f"forall(lambda q: forall(lambda p: c05c_val(log_gi[{T}[q].list_of_alternatives[p]]) == "
           f"{G(T + '[q]', T + '[q].list_of_alternatives[p]')}, 0, len({T}[q].list_of_alternatives)), 0, _k)")
 _ALONE_K = f"forall(lambda x: implies({_IN_ALONE}, c05c_val(log_gi[x]) == 0), ty='int')"
-_DISJ = (f"forall(lambda a: forall(lambda b: implies(a != b, forall(lambda p: forall(lambda r: "
-         f"{T}[a].list_of_alternatives[p] != {T}[b].list_of_alternatives[r], 0, len({T}[b].list_of_alternatives)), "
-         f"0, len({T}[a].list_of_alternatives))), 0, len({T})), 0, len({T}))")
-_ALONE_OUT = (f"implies(nests.alone is not None, forall(lambda a: forall(lambda p: "
-              f"{T}[a].list_of_alternatives[p] not in typed(nests.alone, 'set[int]'), 0, len({T}[a].list_of_alternatives)), 0, len({T})))")
 _TYPED = "forall(lambda x: implies(x in log_gi, isinstance(log_gi[x], Expression)), ty='int')"
 
 _REQ = {
@@ -80,7 +80,42 @@ _INNER = {'current_nest': _M_IN, 'inner_sum': _SUM_IN, 'domain_alone': _DOM_ALON
           'domain_current_nest': _DOM_CUR_IN, 'previous_nests': _PREV_IN, 'current_nest_terms': _CUR_IN,
           'alone_zero': _ALONE_K}
 
-contract(M + 'get_mev_for_nested', P, nla_uf=True,
+_REPLAY_NESTED = '''
+# ln G_i of the nested logit on the real Python evaluator against (mu-1) V_i + (1/mu-1) log sum_{j in nest, av_j != 0} exp(mu V_j)
+import logging, math, warnings
+logging.disable(logging.CRITICAL); warnings.filterwarnings('ignore')
+from biogeme.expressions import Numeric, Beta
+from biogeme.nests import OneNestForNestedLogit, NestsForNestedLogit
+from biogeme.models.nested import get_mev_for_nested, lognested, nested
+cands = [({1: 0.3, 2: -0.2, 3: 1.0}, {1: 1.0, 2: 1.0, 3: 1.0}, [(1.5, [1, 2])], 1),
+         ({1: 0.3, 2: -0.2, 3: 1.0, 4: 0.4}, {1: 1.0, 2: 0.0, 3: 1.0, 4: 1.0}, [(2.0, [1, 2]), (1.25, [3, 4])], 3),
+         ({1: 0.3, 2: -0.2, 3: 1.0, 4: 0.4}, None, [(2.0, [4, 1]), (3.0, [2])], 2),
+         ({1: 0.5, 2: 0.1}, {1: 1.0, 2: 1.0}, [], 1)]
+violated = False
+for V, av, fam, ch in cands:
+    U = {k: Beta(f'b{k}', v, None, None, 0) for k, v in V.items()}
+    A = None if av is None else {k: Numeric(v) for k, v in av.items()}
+    ns = NestsForNestedLogit(list(V), tuple(OneNestForNestedLogit(Beta(f'mu{m}', mu, None, None, 0), list(alts)) for m, (mu, alts) in enumerate(fam)))
+    got = {k: e.get_value() for k, e in get_mev_for_nested(U, A, ns).items()}
+    want = {k: 0.0 for k in V}
+    for mu, alts in fam:
+        s = sum(math.exp(mu * V[j]) for j in alts if av is None or av[j] != 0)
+        for i in alts:
+            want[i] = (mu - 1.0) * V[i] + (1.0 / mu - 1.0) * math.log(s)
+    bad = [k for k in V if k not in got or abs(got[k] - want[k]) > 1e-12 * max(1.0, abs(want[k]))]
+    if not bad:
+        h = {k: V[k] + want[k] for k in V}
+        lp = h[ch] - math.log(sum(math.exp(h[j]) for j in V if av is None or av[j] != 0))
+        g1, g2 = lognested(U, A, ns, ch).get_value(), nested(U, A, ns, ch).get_value()
+        if abs(g1 - lp) > 1e-11 or abs(g2 - math.exp(lp)) > 1e-11:
+            bad = [f'lognested {g1!r} / nested {g2!r} against {lp!r}']
+    if bad:
+        violated = True
+        detail = f'get_mev_for_nested(V={V}, av={av}, nests={fam}): generating terms {got}, textbook {want}; mismatch at {bad}'
+        break
+'''
+
+contract(M + 'get_mev_for_nested', P, nla_uf=True, replay=_REPLAY_NESTED,
          types={'util': 'dict[int, Expression]', 'availability': 'dict[int, Expression] | None', 'nests': 'NestsForNestedLogit'},
          requires=_REQ, modifies=[], may_raise=['BiogemeError'],
          ensures={'domain_alone': _DOM_ALONE.replace('log_gi', 'result'),
@@ -92,3 +127,24 @@ contract(M + 'get_mev_for_nested', P, nla_uf=True,
                      # availability branch, one copy of the inner loop (2, 3 / 5, 6)
                      4: {'clauses': {'domain_alone': _DOM_ALONE, 'domain_nests': _DOM_K, 'nest_terms': _VAL_K, 'alone_zero': _ALONE_K}},
                      **{o: {'clauses': dict(_INNER)} for o in (2, 3, 5, 6)}})
+
+# ---------------------------------------------------------------------------------------- lognested / nested (composition)
+# lognested = logmev(util, get_mev_for_nested(util, availability, nests), availability, choice); nested = mev(the same).
+# Proved here: the two verified contracts COMPOSE for every nest structure (obligations pre@callsite): the dictionary of
+# generating terms has a term for every alternative of `util` (no KeyError inside logmev) as soon as every alternative is
+# alone or in a nest.  The closed form of the composed value is the MEV kernel (contract of logmev / mev) over the terms
+# characterised by the contract of get_mev_for_nested; it is not restated as one formula (the nest of an alternative is not
+# a function the engine can name) and stays covered end-to-end by the bounded translation validation.
+_COVER = (f"forall(lambda q: {_IN_ALONE.replace('x in', 'keys_of(util)[q] in')} or exists(lambda a: exists(lambda p: "
+          f"keys_of(util)[q] == {T}[a].list_of_alternatives[p], 0, len({T}[a].list_of_alternatives)), 0, len({T})), 0, len(util))")
+_REQ_L = dict(_REQ)
+_REQ_L['every_alternative_alone_or_in_a_nest'] = _COVER
+for fn in ('lognested', 'nested'):
+    contract(M + fn, P, nla_uf=True,
+             types={'util': 'dict[int, Expression]', 'availability': 'dict[int, Expression] | None', 'nests': 'NestsForNestedLogit'},
+             requires=_REQ_L, modifies=[], may_raise=['BiogemeError'],
+             raises={'TypeError': N._NOT_OPERAND.format('choice')},
+             ensures={'returns_an_expression': 'isinstance(result, Expression)'},
+             min_obligations=4, replay=_REPLAY_NESTED,
+             note='composition of the contracts of get_mev_for_nested and logmev / mev: the call-site preconditions are the '
+                  'obligations that matter here')
